@@ -118,8 +118,9 @@ def assert_repo_import():
     import _griffe
 
     f = os.path.realpath(_griffe.__file__)
-    if not f.startswith("/repo/src/"):
-        print(f"HARNESS-ERROR: _griffe imported from {f}, not /repo/src", file=sys.stderr)
+    want = os.path.realpath(os.environ.get("VERIF_REPO_SRC", "/repo/src")) + "/"
+    if not f.startswith(want):
+        print(f"HARNESS-ERROR: _griffe imported from {f}, not {want}", file=sys.stderr)
         sys.exit(3)
 
 
